@@ -322,8 +322,11 @@ func (s *state) Enqueue(task *Task) (nwait int) {
 	}
 	for _, task := range task.Phase() {
 		switch task.State() {
-		case TaskOk, TaskErr:
-		case TaskWaiting, TaskRunning:
+		case TaskOk:
+		case TaskWaiting, TaskRunning, TaskErr:
+			// A task already in TaskErr (from an earlier evaluation) is
+			// scheduled like one in flight: its waiter returns at once and
+			// Return reports the error.
 			s.schedule(task)
 			nwait++
 		case TaskInit, TaskLost:
